@@ -157,6 +157,40 @@ def wf_edges(B):
     return None
 
 
+def is_free(B, q):
+    """True when the query names no element of the mesh: the property text says nothing about such a call
+    (a refusal with any exception is then as good as the conventional None / False answer)."""
+    name, a = q[0], q[1:]
+    nf, ne, nc, nv = len(B.faces), len(B.edges), B.nc, B.nv
+    he = lambda u, v: B.he(u, v) is not None
+    if name in ("vertex_to_faces", "vertex_to_corners", "vertex_to_vertices", "vertex_to_edges", "is_vertex_on_border"):
+        return not 0 <= a[0] < nv
+    if name in ("previous_corner", "next_corner", "opposite_corner", "corner_to_half_edge", "corner_to_face"):
+        return not 0 <= a[0] < nc
+    if name in ("face_to_vertices", "face_to_edges", "face_to_first_corner", "face_to_corners", "face_to_faces"):
+        return not 0 <= a[0] < nf
+    if name == "edge_to_vertices":
+        return not 0 <= a[0] < ne
+    if name == "other_edge_end":
+        return not 0 <= a[0] < ne or a[1] not in B.edges[a[0]]
+    if name in ("half_edge_to_corner", "direct_face", "direct_face_inds", "edge_to_faces", "edge_id", "is_edge_on_border"):
+        return not he(a[0], a[1]) and not he(a[1], a[0])
+    if name in ("opposite_face", "opposite_face_inds"):
+        h1, h2 = B.he(a[0], a[1]), B.he(a[1], a[0])
+        return a[2] not in [h[0] for h in (h1, h2) if h is not None]
+    if name == "common_edge":
+        if not (0 <= a[0] < nf and 0 <= a[1] < nf):
+            return True
+        Fl = B.faces[a[0]]
+        return not any((B.he(Fl[(i + 1) % len(Fl)], Fl[i]) or [None])[0] == a[1] for i in range(len(Fl)))
+    if name in ("vertex_to_corner_in_face", "in_face_index"):
+        V, F = (a[0], a[1]) if name == "vertex_to_corner_in_face" else (a[1], a[0])
+        return not 0 <= F < nf or V not in B.faces[F]
+    if name == "face_id":
+        return not any(sorted(Fl) == sorted(a) for Fl in B.faces)
+    return False
+
+
 def expected(B, sort, q):
     """('exact', answer) | ('set', list) | ('rot', list) | ('pred', fn) for query q"""
     name, a = q[0], q[1:]
@@ -171,14 +205,16 @@ def expected(B, sort, q):
               "face_to_edges": (nf, "IndexError"), "vertex_to_vertices": (B.nv, "KeyError"), "vertex_to_faces": (B.nv, "TypeError"),
               "corner_to_face": (B.nc, "IndexError"), "edge_to_vertices": (ne, "IndexError"), "other_edge_end": (ne, "IndexError")}
     if name in absent and a and a[0] >= absent[name][0]:
-        return "exact", ["err", absent[name][1]]
+        return "any", None      # an id naming no element: the property does not speak about it
     if name == "vertex_to_corners":
         A = a[0]
         if not (0 <= A < B.nv):
             return "exact", ["none"]
         if not sort:
             return "set", B.corners_at(A)
-        return "pred", lambda o: ("not a list" if (o[0] != "list" or None in o[1]) else B.ring_ok(A, o[1]))
+        # rotational order fixes no direction: the ring may be listed either way round
+        return "pred", lambda o: ("not a list" if (o[0] != "list" or None in o[1])
+                                  else (B.ring_ok(A, o[1]) and B.ring_ok(A, o[1][::-1])))
     if name in ("vertex_to_faces", "vertex_to_vertices", "vertex_to_edges"):
         A = a[0]
         ring = B.canonical_ring(A)
@@ -205,8 +241,8 @@ def expected(B, sort, q):
                 return "set", [B.eid(A, u) for u in B.neighbours(A)]
             return "set", base
         if border:
-            return "exact", L(pre + base)
-        return "rot", base
+            return "openring", pre + base
+        return "ring", base
     if name == "vertex_to_corner_in_face":
         V, F = a
         for i, v in enumerate(faces[F]):
@@ -253,24 +289,29 @@ def expected(B, sort, q):
     if name == "common_edge":
         f, g = a
         Fl = faces[f]
+        shared = []
         for i in range(len(Fl)):
             A_, B_ = Fl[i], Fl[(i + 1) % len(Fl)]
             h = B.he(B_, A_)
             if h is not None and h[0] == g:
-                return "exact", L(sorted((A_, B_)))
-        return "exact", L([None, None])
+                shared.append(sorted((A_, B_)))
+        if not shared:
+            return "exact", L([None, None])
+        # "the" edge between two faces: any shared side, its two vertices in any order
+        return "pred", lambda o: (None if (o[0] == "list" and sorted(x for x in o[1] if x is not None) in shared and len(o[1]) == 2)
+                                  else "not one of the shared sides %s" % shared)
     if name == "face_to_vertices":
-        return "exact", L(faces[a[0]])
+        return "rot", list(faces[a[0]])          # the starting vertex of a face row is free
     if name == "in_face_index":
         F, V = a
         return "exact", I(faces[F].index(V) if V in faces[F] else None)
     if name == "face_to_edges":
         Fl = faces[a[0]]
-        return "exact", L([B.eid(Fl[i], Fl[(i + 1) % len(Fl)]) for i in range(len(Fl))])
+        return "rot", [B.eid(Fl[i], Fl[(i + 1) % len(Fl)]) for i in range(len(Fl))]
     if name == "face_to_first_corner":
         return "exact", I(B.off[a[0]])
     if name == "face_to_corners":
-        return "exact", L([B.off[a[0]] + i for i in range(len(faces[a[0]]))])
+        return "rot", [B.off[a[0]] + i for i in range(len(faces[a[0]]))]
     if name == "face_to_faces":
         Fl = faces[a[0]]
         out = []
@@ -278,7 +319,7 @@ def expected(B, sort, q):
             h = B.he(Fl[(i + 1) % len(Fl)], Fl[i])
             if h is not None:
                 out.append(h[0])
-        return "exact", L(out)
+        return "multiset", out                   # faces around a face: no order is fixed
     if name == "face_id":
         k = sorted(a)
         ids = [f for f, Fl in enumerate(faces) if sorted(Fl) == k]
@@ -291,14 +332,14 @@ def expected(B, sort, q):
         return "exact", I(y if V == x else (x if V == y else None))
     if name == "edge_to_vertices":
         return "exact", L(sorted(B.edges[a[0]]))     # the (smallest, largest) row of that side
-    if name == "boundary_edges":
-        return "exact", L([i for i, (u, v) in enumerate(B.edges) if B.edge_on_border(u, v)])
+    if name == "boundary_edges":      # a classification: a set
+        return "set", [i for i, (u, v) in enumerate(B.edges) if B.edge_on_border(u, v)]
     if name == "interior_edges":
-        return "exact", L([i for i, (u, v) in enumerate(B.edges) if not B.edge_on_border(u, v)])
+        return "set", [i for i, (u, v) in enumerate(B.edges) if not B.edge_on_border(u, v)]
     if name == "boundary_vertices":
         return "set", [v for v in range(B.nv) if B.vertex_on_border(v)]
     if name == "interior_vertices":
-        return "exact", L([v for v in range(B.nv) if not B.vertex_on_border(v)])
+        return "set", [v for v in range(B.nv) if not B.vertex_on_border(v)]
     if name == "is_edge_on_border":
         return "exact", ["bool", B.edge_on_border(*a)]
     if name == "is_vertex_on_border":
@@ -325,9 +366,22 @@ def check_case(case, res):
         return (-1, "face_corners is not the concatenation of the faces: the mesh has %d face corners, its face list has %d%s"
                 % (len(res["corner_elem"]), sum(len(F) for F in case["faces"]), q0))
     for k, (q, o) in enumerate(zip(case["script"], res["obs"])):
+        free = is_free(B, q)
+        if free and o[0] == "err":
+            continue                # a refusal of a call that names no element, whatever its exception class
         mode, want = expected(B, case["sort"], q)
-        if mode == "exact":
+        if mode == "any":
+            continue
+        if o[0] == "err":
+            ok = False              # the property says this call must be answered: any exception is a violation
+        elif mode == "exact":
             ok = (o == want)
+        elif mode == "multiset":
+            ok = o[0] == "list" and None not in o[1] and sorted(o[1]) == sorted(want)
+        elif mode == "ring":
+            ok = o[0] == "list" and (o[1] in rotations(want) or o[1] in rotations(want[::-1]))
+        elif mode == "openring":
+            ok = o[0] == "list" and (o[1] == want or o[1] == want[::-1])
         elif mode == "set":
             ok = o[0] == "list" and None not in o[1] and sorted(o[1]) == sorted(want) and len(set(o[1])) == len(o[1])
         elif mode == "rot":
@@ -343,6 +397,7 @@ def check_case(case, res):
     if res.get("decoy"):
         want = [["int", 0], ["list", [0, 3]], ["list", [0, 1, 3, 4]], ["int", 3], ["list", []]]
         for j, d in enumerate(res["decoy"]):
+            d = [["list", sorted(x[1])] if x[0] == "list" and None not in x[1] else x for x in d]
             if d != want:
                 return (-3, "another mesh of the same session answered %s at observation %d, direct inspection of its face list gives %s"
                         % (d, j, want))
@@ -354,6 +409,8 @@ def check_case(case, res):
         if not all(x[0] == "list" and None not in x[1] for x in (cs, vv, fs, es)):
             return (-2, "rings of vertex %d are not lists of ids: %s" % (V, ring[1:]))
         cs, vv, fs, es = cs[1], vv[1], fs[1], es[1]
+        if case["sort"] and cs and B.ring_ok(V, cs) is not None:
+            continue        # listed the other way round (checked by the queries themselves): alignment is not fixed by the text
         if fs != [B.corner_fi(c)[0] for c in cs]:
             return (-2, "vertex %d: vertex_to_faces %s is not the faces of vertex_to_corners %s in the same order" % (V, fs, cs))
         if es != [B.eid(V, u) for u in vv]:
